@@ -331,6 +331,12 @@ def run(ctx, tier):
     items_rules(ctx, I)
     from .rules_c18 import rewind_rule
     rewind_rule(ctx, I, 'C19.R7')
+    # the handlers' one parser object is re-used for every command: what a reader sees (words, cached word map) must belong to
+    # the command just parsed - parse() re-assigns every attribute a reader uses (C18.R5 as premise)
+    ctx.rule('C19.R8', 'the shared parser carries nothing from command to command: parse() re-assigns every attribute a reader uses '
+                       '(parameters, cached parameter map, ...) on every path', floor=10)
+    from . import rules_c18
+    rules_c18.parse_rules(ctx, rules_c18.parser_interp(ctx.model, unroll=2), r5='C19.R8', freshness_only=True)
     run_path_rules(ctx, __name__, 'path_rules', ['G0', 'G1', 'G2', 'G3', 'G92', 'M206', 'G28', 'G10'], unroll=1)
     dup_tasks = [('G0', {'param_dups': [L]}) for L in 'XYZEF'] + [('G92', {'param_dups': [L]}) for L in 'XYZE'] + \
         [('M206', {'param_dups': [L]}) for L in 'XYZ']
